@@ -1,6 +1,6 @@
 (* C08 - Each transfer carries every source symbol once at RFC offsets; end flags last.
    Only property theorems, Print Assumptions and non-vacuity examples. *)
-From FluteV Require Import Model.Partition Model.BlockEnc Spec.C07Spec Spec.C08Spec Proofs.BlockEncProofs.
+From FluteV Require Import Model.Partition Model.BlockEnc Spec.C07Spec Spec.C08Spec Proofs.BlockEncProofs Proofs.C08Full.
 Open Scope N_scope.
 
 (* (1) The window scheduler of BlockEncoder::read, for ANY list of blocks with distinct SBNs,
@@ -62,12 +62,16 @@ Theorem C08_wf_init : forall c blocks,
 Proof. exact wf_init. Qed.
 Print Assumptions C08_wf_init.
 
-(* Full statement still to be connected (kept visible): the blocks that blocks_of_buffer builds
-   for an accepted configuration satisfy the premises of C08_wf_init and their source shards are
-   the E-byte slices of the content - i.e. P_C08_transfer holds of the model for every input
-   outside the recorded class D30.  Checked on every run by evaluating P_C08_transfer on the
-   implementation's output; not yet a theorem. *)
-Definition C08_transfer_full : Prop :=
+(* (6) Full statement: for every configuration FileDesc::new accepts and every buffer content of
+   the announced transfer length, with the FEC oracles producing c_parity repair symbols per block
+   (and the raptor-code crate cutting E-byte symbols, i.e. outside the recorded class D30), the
+   packets of an uninterrupted transfer satisfy the executable predicate P_C08_transfer: every
+   SBN is below the RFC 5052 block count; per block the ESIs are strictly increasing, K and the
+   source flag are right, the source symbols are exactly ESI 0..K-1 and each carries the E-byte
+   slice of the content at the RFC offset of (block, symbol) (zero-padded or short for the last
+   one), at most c_parity repair symbols; the close flag is on the last packet only, iff closable;
+   an empty object is the lone empty packet. *)
+Theorem C08_transfer_full :
   forall rep raptor_src c content,
     filedesc_accepts c = true -> c_tlen c = lenN content -> known_D30 c = false ->
     (c_debug c && negb (c_tlen c =? 0)) = false -> (1 <= c_window c)%nat ->
@@ -75,6 +79,8 @@ Definition C08_transfer_full : Prop :=
     (forall f sbn buf k p, length (rep f sbn buf k p) = N.to_nat p) ->
     let blocks := blocks_of_buffer rep raptor_src c content in
     P_C08_transfer c content None (pkts_of (enc_run (S (S (total_shards blocks))) c [] (est_init blocks))) = true.
+Proof. exact C08_transfer_full_proof. Qed.
+Print Assumptions C08_transfer_full.
 
 (* non-vacuity: a concrete two-block Reed-Solomon-like transfer satisfies wf and is scheduled *)
 Example C08_example :
